@@ -326,6 +326,7 @@ func c13Opts() gen.Opts {
 	o.MapLiterals = true
 	o.CaseTwins = true
 	o.SameFileNames = true
+	o.UnnamedFiles = true
 	return o
 }
 
